@@ -7,6 +7,20 @@ _A_NOTE = ('Trusted: CrossHair 0.0.110 proxy semantics and path pruning, z3 5.1.
            'before a VIOLATION is printed.')
 
 CLAIMS = {
+    'C10': dict(
+        engine='A-crosshair',
+        technique='bounded symbolic execution of the real code (CrossHair + z3); canonical form of apply_diff(build_diff(old, new), copy of old) versus new',
+        text=('For every three-node DAG `old` of the family (child targets solver-enumerated, six wrapper kinds incl. '
+              'tuples and named tuples, shared containers, tags with and without values, dict / list arguments) and '
+              'every `new` obtained by two of 14 edit kinds (leaf change, callable swap keeping / dropping a parameter, '
+              'argument added / removed, tag added / removed, alias created / broken, subtree moved, container edited, '
+              'subtree replaced, children swapped, three-way rotation) at solver-chosen nodes, applied to a deep copy, '
+              'to a shallow copy sharing objects with old by identity, or to an unrelated family member: build_diff '
+              'returns without modifying old or new; apply_diff on a deep copy of old succeeds, keeps the root object, '
+              'makes it canonically equal to new (callables, arguments, tags, aliasing) and modifies neither the diff '
+              'nor new; the diff between a member and its deep copy is empty. One listed known finding (positional '
+              'arguments).'),
+        note=_A_NOTE + ' Leaves are concrete (the alignment heuristics compare leaves pairwise and by len(repr)).'),
     'C04': dict(
         engine='A-crosshair',
         technique='bounded symbolic execution of the real code (CrossHair + z3) against a closure-based reference model of functools.partial with per-call factories',
